@@ -167,6 +167,57 @@ def check_codecs(rep):
         FuncVC(rep, 'C09', S.Z80._set_registers, 'skoolkit.snapshot.Z80._set_registers[%s] o Z80._read[%s]' % (reg, attr),
                Engine(inline_ok=inline_skoolkit)).run(startr, postr, None)
 
+    # ------------------------------------------------------------- Z80: hardware state bytes (7ffd, fffd, ay[n], iff, im)
+    def reader_stmts(fn, attrs):
+        """Assignments `self.<attr> = ...` anywhere in fn (straight-line reader statements), in source order."""
+        node, _ = func_ast(fn)
+        out = []
+        for n in ast.walk(node):
+            if isinstance(n, ast.Assign) and len(n.targets) == 1 and isinstance(n.targets[0], ast.Attribute) and n.targets[0].attr in attrs \
+                    and isinstance(n.targets[0].value, ast.Name) and n.targets[0].value.id == 'self':
+                out.append(n)
+        out.sort(key=lambda n: n.lineno)
+        return out
+    for field, attr, width in (('7ffd', 'out7ffd', 255), ('fffd', 'outfffd', 255), ('iff', 'iff1', None), ('im', 'im', 3)) + tuple(('ay[%d]' % k, 'ay', 255) for k in (0, 7, 15)):
+        def start_h(eng, field=field, attr=attr):
+            p = eng.path
+            p.v = SV(z3.BitVec('v', W), 0, BIG)
+            p.facts.append(z3.And(p.v.t >= 0, p.v.t <= BIG))
+            hdr = [byte('h%d' % i) for i in range(86)]
+            p.hdr0 = list(hdr)
+            p.header = SymList(hdr, 'header')
+            me = ObjModel(None, name='Z80', cls=S.Z80)
+            me.attrs['header'] = p.header
+            p.me = me
+            # the register number inside ay[N] is parsed by the same function: concrete here
+            def gip(e, a, k, n):
+                txt = a[0]
+                if isinstance(txt, str) and txt.isdigit():
+                    return int(txt)
+                return p.v
+            eng.call_models[id(skoolkit.get_int_param)] = gip
+            eng.call_function(S.Z80._set_state, [me, ['%s=NUM' % field]])
+            eng.run_stmts(S.Z80._read, reader_stmts(S.Z80._read, (attr,)), {'self': me}, None)
+
+        def post_h(p, prove, field=field, attr=attr, width=width):
+            got = p.me.attrs.get(attr)
+            if attr == 'ay':
+                k = int(field[3:-1])
+                got = got[k] if isinstance(got, tuple) else (got.items[k] if isinstance(got, SymList) else None)
+            if attr == 'iff1':
+                prove('post.roundtrip', cmpop('==', got, ite((p.v & 255) != 0, 1, 0)) if got is not None else False)
+            else:
+                prove('post.roundtrip', cmpop('==', got, p.v & width) if got is not None else False)
+            h = p.header.items
+            changed = [i for i in range(86) if h[i] is not p.hdr0[i]]
+            prove('post.byte_range', and_(*[and_(h[i] >= 0, h[i] <= 255) for i in changed]) if changed else True)
+            allowed = {'7ffd': (35,), 'fffd': (38,), 'iff': (27, 28), 'im': (29,)}.get(field, (39 + int(field[3:-1]),) if field.startswith('ay') else ())
+            prove('frame.header', all(i in allowed for i in changed))
+            if field == 'im':
+                prove('frame.byte29_other_bits', cmpop('==', h[29] & 0xFC, p.hdr0[29] & 0xFC))
+        FuncVC(rep, 'C09', S.Z80._set_state, 'skoolkit.snapshot.Z80._set_state[%s] o Z80._read[%s]' % (field, attr),
+               Engine(inline_ok=inline_skoolkit)).run(start_h, post_h, None)
+
     # ------------------------------------------------------------- SZX: Z80R block (registers, T-states)
     z80r_reader = find_block(S.SZX._read, lambda t: "b'Z80R'" in t)
     for reg, attr in (('bc', 'bc'), ('de', 'de'), ('hl', 'hl'), ('ix', 'ix'), ('iy', 'iy'), ('sp', 'sp'), ('pc', 'pc'), ('^bc', 'bc2'), ('^de', 'de2'),
@@ -206,6 +257,46 @@ def check_codecs(rep):
             prove('frame.block', all(b[i] is p.blk0[i] for i in range(37) if i not in touched))
         FuncVC(rep, 'C09', S.SZX._add_zxstz80regs, 'skoolkit.snapshot.SZX._add_zxstz80regs[%s] o SZX._read[Z80R.%s]' % (reg, attr),
                Engine(inline_ok=inline_skoolkit)).run(starts, posts, replay_tstates('szx', 0) if reg == 'tstates' else None)
+
+    # ------------------------------------------------------------- SZX: SPCR and AY blocks
+    for writer, blk_len, guard, fields in ((S.SZX._add_zxstspecregs, 8, "block_id == b'SPCR'", (('border', 'border', 7), ('7ffd', 'out7ffd', 255), ('fe', 'outfe', 255))),
+                                           (S.SZX._add_zxstayblock, 18, "block_id == b'AY", (('fffd', 'outfffd', 255), ('ay[0]', 'ay', 255), ('ay[9]', 'ay', 255), ('ay[15]', 'ay', 255)))):
+        reader = find_block(S.SZX._read, lambda t, guard=guard: guard in t)
+        for field, attr, width in fields:
+            def start_x(eng, writer=writer, blk_len=blk_len, field=field, reader=reader):
+                p = eng.path
+                p.v = SV(z3.BitVec('v', W), 0, BIG)
+                p.facts.append(z3.And(p.v.t >= 0, p.v.t <= BIG))
+                blk = [byte('x%d' % i) for i in range(blk_len)]
+                p.blk0 = list(blk)
+                p.block = SymList(blk, 'block')
+                blocks = ObjModel(None, name='blocks')
+                blocks.attrs['setdefault'] = CallModel(lambda e, a, k, n: p.block, 'setdefault')
+                me = ObjModel(None, name='SZX', cls=S.SZX)
+                me.attrs['blocks'] = blocks
+                p.me = me
+
+                def gip(e, a, k, n):
+                    txt = a[0]
+                    if isinstance(txt, str) and txt.isdigit():
+                        return int(txt)
+                    return p.v
+                eng.call_models[id(skoolkit.get_int_param)] = gip
+                eng.call_function(writer, [me, ['%s=NUM' % field]])
+                eng.run_stmts(S.SZX._read, reader, {'self': me, 'block': p.block}, None)
+
+            def post_x(p, prove, field=field, attr=attr, width=width):
+                got = p.me.attrs.get(attr)
+                if attr == 'ay':
+                    k = int(field[3:-1])
+                    got = got[k] if isinstance(got, tuple) else (got.items[k] if isinstance(got, SymList) else None)
+                prove('post.roundtrip', cmpop('==', got, p.v & width) if got is not None else False)
+                b = p.block.items
+                changed = [i for i in range(len(b)) if b[i] is not p.blk0[i]]
+                prove('post.byte_range', and_(*[and_(b[i] >= 0, b[i] <= 255) for i in changed]) if changed else True)
+                prove('frame.block', len(changed) <= 1)
+            FuncVC(rep, 'C09', writer, 'skoolkit.snapshot.SZX.%s[%s] o SZX._read[%s]' % (writer.__name__, field, attr),
+                   Engine(inline_ok=inline_skoolkit)).run(start_x, post_x, None)
 
     # ------------------------------------------------------------- snapshot.Memory index arithmetic
     def start_get(eng):
